@@ -243,6 +243,10 @@ class NuWiki:
         hex_digest = sha256(canonical_fqname.encode("utf-8")).hexdigest()
         ext = os.path.splitext(path)[-1]
         ext = ext.replace(" ", "")
+        if len(ext) > 16:
+            # text after a dot inside a long name, not a file type; the link name
+            # (64 hex digits + ext) has to stay below the 255 byte file name limit
+            ext = ""
         # mediawiki returns png files for some file types,
         # so let's change the file extension to png here.
         if ext.lower() in (".gif", ".svg", ".tif", ".tiff"):
